@@ -135,6 +135,64 @@ func checkC18(ctx *RunCtx) int {
 
 // --- regulator checks -------------------------------------------------------------------------
 
+// concurrentRegulator runs the concurrent tournament world in this process and in the -race child and
+// folds in the violations that belong to prop (C09: ledger, C19: capacity); a race report counts for both
+func concurrentRegulator(ctx *RunCtx, rep *Report, prop string, extra map[string]interface{}) {
+	tmp := NewReport()
+	cworldBatch(ctx.Seed, 95, ctx.N(400, 8000), tmp, ctx.Workers)
+	take := func(r *Report) {
+		for k, v := range r.Counters {
+			rep.Add(k, v)
+		}
+		for sig, vs := range r.Viol {
+			for _, v := range vs {
+				if v.Prop == prop {
+					rep.Violate(v)
+					rep.ViolCount[sig] += r.ViolCount[sig] - 1
+				}
+			}
+		}
+		for _, s := range r.Samples {
+			rep.Sample(s, 6)
+		}
+	}
+	take(tmp)
+	reports, pairs, out, ok, why := runRaceChild(ctx, "c09race", fmt.Sprint(ctx.Seed), fmt.Sprint(ctx.N(60, 600)))
+	if !ok {
+		extra["race_run"] = "not run: " + why
+		return
+	}
+	rep.Add("race_detector_runs", 1)
+	extra["race_reports"] = reports
+	for _, line := range strings.Split(out, "\n") {
+		if !strings.HasPrefix(line, "RESULT ") {
+			continue
+		}
+		var res struct {
+			Counters        map[string]int64        `json:"counters"`
+			Violations      map[string][]*Violation `json:"violations"`
+			ViolationCounts map[string]int64        `json:"violation_counts"`
+		}
+		if json.Unmarshal([]byte(line[7:]), &res) == nil {
+			for k, v := range res.Counters {
+				rep.Add("race_build_"+k, v)
+			}
+			for sig, vs := range res.Violations {
+				for _, v := range vs {
+					if v.Prop == prop {
+						rep.Violate(v)
+						rep.ViolCount[sig] += res.ViolationCounts[sig] - 1
+					}
+				}
+			}
+		}
+	}
+	for p, n := range pairs {
+		rep.Violate(&Violation{Prop: prop, Rule: prop + "/data-race", Cause: p, Msg: fmt.Sprintf("race detector: %d report(s) between %s while registrations, syncs and releases run on different goroutines", n, p), Kind: "conc", Case: firstLines(out, 40)})
+		rep.ViolCount[prop+"/data-race|"+p] += int64(n) - 1
+	}
+}
+
 func worldScripted() []struct {
 	max, min int
 	steps    string
@@ -228,8 +286,11 @@ func runWorldChecks(ctx *RunCtx, rep *Report, prop string, props []string, nShor
 func checkC09(ctx *RunCtx) int {
 	rep := NewReport()
 	runWorldChecks(ctx, rep, "C09", []string{"C09"}, ctx.N(40000, 300000), ctx.N(300, 5000), true)
+	extra := map[string]interface{}{}
+	concurrentRegulator(ctx, rep, "C09", extra)
 	return finish(ctx, rep, &CheckSpec{
-		Prop: "C09", Level: "exploration", EvalCounter: "quiescent_checks", NonTrivSet: "nontrivial",
+		Extra: extra,
+		Prop:  "C09", Level: "exploration", EvalCounter: "quiescent_checks", NonTrivSet: "nontrivial",
 		Rule:        "random tournament histories against a world of real tables that follow the regulator's instructions (registration batches 1..4*max and bursts of 300, pending -> running -> registration closed at random points, syncs with 0-3 eliminations on random tables, releases, breaks, unknown-table calls), all settings 2<=min<=max<=10 plus 9/6, and long tournaments down to the final table. After every completed step: every live player is in exactly one of {waiting queue (hook), one table}, nobody is handed out twice or after elimination, GetPlayerCount/GetTableCount/GetTable(id).PlayerCount equal the real numbers; unknown-table syncs and late registrations must be refused with the observable state unchanged. evaluations = quiescent-point checks; non-trivial = distinct histories",
 		Required:    []string{"class_players_waiting", "class_registration_after_deadline", "class_unknown_table", "class_table_broken", "top_ups", "releases", "long_tournaments", "class_final_table_reached"},
 		Assumptions: []string{"ReleasePlayers never validates its table id and is legitimately called with the id of a table the regulator has just deleted; 'unknown table is refused' is asserted for SyncState/GetTable only", "tables follow the protocol of the repo's own tests: eliminate, report, seat the returned players, release exactly the requested number"},
@@ -239,8 +300,11 @@ func checkC09(ctx *RunCtx) int {
 func checkC19(ctx *RunCtx) int {
 	rep := NewReport()
 	runWorldChecks(ctx, rep, "C19", []string{"C19"}, ctx.N(40000, 300000), ctx.N(300, 5000), false)
+	extra := map[string]interface{}{}
+	concurrentRegulator(ctx, rep, "C19", extra)
 	return finish(ctx, rep, &CheckSpec{
-		Prop: "C19", Level: "exploration", EvalCounter: "tables_opened", NonTrivSet: "nontrivial",
+		Extra: extra,
+		Prop:  "C19", Level: "exploration", EvalCounter: "tables_opened", NonTrivSet: "nontrivial",
 		Rule:     "the same tournament histories with the capacity monitor inside the callbacks: every list given to requestTableFn has at most max players, every table's real membership stays <= max after each assignPlayersFn / SyncState hand-out, no table is opened while pending or before min players have registered, every table opened by the initial allocation (the first ever) has >= min players; settings grid 2<=min<=max<=10, registrant counts around multiples of max, late batches above capacity. evaluations = tables opened; non-trivial = distinct histories",
 		Required: []string{"class_initial_allocation_tables", "class_initial_allocation_with_remainder", "class_late_batch_above_capacity", "class_late_tables", "assignments", "top_ups"},
 	})
